@@ -215,6 +215,22 @@ theorem writeThrough_spec (w : Wr) (e : Env) (p : Bytes) (hinv : Inv w) (he : En
       ?_, ⟨hinv.off_eq, hinv.room, by simp [Wr.size, hb]⟩, ⟨he2.masks_wf, hf2⟩, by rw [hc, hb, herr], rfl⟩
     simp [Dst.write, hf2, he.no_fail, herr, popMask_dst, hc, hb]
 
+/-- Data that fits the free space of the buffer is buffered: nothing is sent, nothing is lost. -/
+theorem write_loop_fits (fuel : Nat) (w : Wr) (e : Env) (p : Bytes) (n : Nat)
+    (hfit : p.length ≤ w.available) (herr : w.err = false) :
+    Wr.write.loop fuel w e p n = some (n + p.length, none, { w with buf := w.buf ++ p }, e) := by
+  have hc : (decide (p.length > w.available) && !false) = false := by
+    have : ¬ p.length > w.available := by omega
+    simp [this]
+  unfold Wr.write.loop
+  simp only [herr, hc, Bool.false_eq_true, if_false]
+
+theorem write_fits (w : Wr) (e : Env) (p : Bytes) (hfit : p.length ≤ w.available) (herr : w.err = false) :
+    w.write e p = some (p.length, none, { w with dirty := true, buf := w.buf ++ p }, e) := by
+  unfold Wr.write
+  rw [write_loop_fits 6 { w with dirty := true } e p 0 (by simpa [Wr.available, Wr.size] using hfit) (by simpa using herr)]
+  simp
+
 /-! Non-vacuity: a 16-byte server buffer reserves 2 bytes; writing 15 bytes flushes a full
     14-byte fragment... no pre-emptive flush: 14 bytes stay buffered, then one final frame. -/
 example : (newWriterBuffer false 1 16).map (·.size) = some 14 := by decide
